@@ -52,9 +52,11 @@ pub fn project_test(tc: &TestCase) -> Value {
 
 pub fn parse_project(text: &str) -> Value {
     match guarded(|| md_parser().parse(text)) {
-        Err(msg) => json!({"result": "panic", "tests": [], "msg": msg}),
-        Ok(Err(e)) => json!({"result": "err", "tests": [], "msg": format!("{e:#}").chars().take(200).collect::<String>()}),
-        Ok(Ok((_cfg, tests))) => json!({"result": "ok", "tests": tests.iter().map(project_test).collect::<Vec<_>>(), "msg": ""}),
+        Err(msg) => json!({"result": "panic", "tests": [], "msg": msg, "fm": false}),
+        Ok(Err(e)) => json!({"result": "err", "tests": [], "msg": format!("{e:#}").chars().take(200).collect::<String>(), "fm": false}),
+        // "fm": the document configuration of the spec's front-matter (`total_timeout: 5s`) was read
+        Ok(Ok((cfg, tests))) => json!({"result": "ok", "tests": tests.iter().map(project_test).collect::<Vec<_>>(), "msg": "",
+                                        "fm": cfg.total_timeout == Some(Duration::from_secs(5))}),
     }
 }
 
@@ -71,7 +73,7 @@ pub fn replay(args: &[String]) {
             let text = render_text(&lines, *crlf, *fnl);
             let obs = parse_project(&text);
             out.push(json!({"ev": "Load", "id": id * 10 + vi as u64, "vid": id, "crlf": crlf, "final_newline": fnl,
-                            "ref": v["ref"], "obs": obs, "lines": v["lines"]}));
+                            "ref": v["ref"], "fm": v["fm"], "obs": obs, "lines": v["lines"]}));
         }
         out
     });
